@@ -13,21 +13,32 @@ git checkout -q --detach "$(git -C /repo rev-parse HEAD)" 2>/dev/null
 git checkout -- . ; rm -f tests/demo_*.rs
 FEAT=""
 if grep -q "verif" "$DIR/demo.rs"; then FEAT="--features verif"; fi
+# a file `cargo_args` next to the patch overrides the cargo feature selection for the DEMONSTRATION (e.g. another back end);
+# the existing suite is always run with the default features
+DEMOFEAT="$FEAT"
+if [ -f "$DIR/cargo_args" ]; then DEMOFEAT="$(cat "$DIR/cargo_args")"; fi
 cp "$DIR/demo.rs" "tests/demo_$NAME.rs"
 git apply "$DIR/patch.diff" || { echo "REJECTED $NAME: patch does not apply"; exit 1; }
 out=$(cargo test --offline --no-fail-fast $FEAT 2>&1)
+if [ "$DEMOFEAT" != "$FEAT" ]; then
+    outd=$(cargo test --offline --no-fail-fast $DEMOFEAT --test "demo_$NAME" 2>&1)
+    out="$out
+     Running tests/demo_$NAME.rs (with $DEMOFEAT)
+$(echo "$outd" | grep -E "^test |^error")"
+fi
 if echo "$out" | grep -q "^error\(\[E\|: could not compile\)"; then echo "REJECTED $NAME: does not compile"; echo "$out" | grep -E "^error" -A6 | head -20; git checkout -- .; exit 1; fi
 failed=$(echo "$out" | grep -E "^test .* FAILED$" | sed 's/^test //; s/ \.\.\. FAILED//' | sort -u)
 suite_failed=$(echo "$failed" | grep -v "^$" | grep -v "test_non_perturbed_z" | grep -vE "^(demo|test_demo|.*demo)" || true)
 # tests of the demo file are the ones listed in its own "Running tests/demo_" section
 demo_section=$(echo "$out" | awk '/Running tests\/demo_/{f=1} f{print} /^test result/{if(f){exit}}')
 demo_failed=$(echo "$demo_section" | grep -cE "^test .* FAILED$")
+if [ "$DEMOFEAT" != "$FEAT" ]; then demo_failed=$(echo "$outd" | grep -cE "^test .* FAILED$"); fi
 lib_line=$(echo "$out" | grep -E "^test result" | head -1)
 echo "  with change: lib: $lib_line"
 echo "  with change: demo failures: $demo_failed"
 others=$(echo "$out" | awk '/Running tests\/demo_/{f=1} /Running/{ if ($0 !~ /demo_/) f=0 } !f{print}' | grep -E "^test .* FAILED$" | grep -v test_non_perturbed_z || true)
 git checkout -- .
-out2=$(cargo test --offline --no-fail-fast $FEAT --test "demo_$NAME" 2>&1)
+out2=$(cargo test --offline --no-fail-fast $DEMOFEAT --test "demo_$NAME" 2>&1)
 clean_failed=$(echo "$out2" | grep -cE "^test .* FAILED$")
 clean_passed=$(echo "$out2" | grep -E "^test result" | head -1)
 echo "  without change: demo: $clean_passed"
